@@ -515,6 +515,13 @@ func (fv *FV) ident(x *ast.Ident, cx *Cx) TV {
 		if s, ok := u.ExtraCells[x.Name]; ok {
 			return TV{T: fv.get(cx.st, x.Name, s), S: s}
 		}
+		if s, ok := u.SpecConsts[x.Name]; ok {
+			var ty types.Type
+			if s == SInt {
+				ty = tInt
+			}
+			return TV{T: sym(x.Name), S: s, Ty: ty}
+		}
 		if x.Name == "alloc" {
 			return TV{T: fv.get(cx.st, "alloc", SInt), Ty: tInt, S: SInt}
 		}
